@@ -56,7 +56,7 @@ def correspondence(ck):
     ck.obligation("correspondence:lagrange_taps == Lagrange.taps at binary64 (bit-exact); constant-shift timeshift == timeshift_const (1e-11)", not bad, "; ".join(bad[:3]))
     ck.cov["correspondence_cases"] = len(exp)
     # exact rationals: model at QA vs the textbook product, 2h+1 fractions per order (a degree-(2h-1) identity is fixed by 2h points)
-    hs2 = [1, 2, 3, 5, 8, 16] if ck.tier == "quick" else [1, 2, 3, 4, 5, 8, 12, 16, 24, 31, 45, 56]
+    hs2 = [1, 2, 3, 5, 8, 16] if ck.tier == "quick" else [1, 2, 3, 4, 5, 8, 12, 16, 20]
     t2, e2 = [], []
     for h in hs2:
         for i in range(2 * h + 1):
